@@ -80,6 +80,7 @@ class Tap:
             # (whoever reads this stream must have failed here)
             if f.bad is None:
                 f.bad = ('proto', 'frame inside header block')
+            f.problems = tuple(f.problems) + (('proto', 'frame inside header block'),)
             return f
         if f.type in (C.HEADERS, C.PUSH_PROMISE) and f.fragment is not None and \
                 (f.bad is None or f.bad[0] != 'size'):
